@@ -117,7 +117,7 @@ class Address:
         else:  # len(device_id) == 10, e.g. 'CTL:123456', or ' 63:262142'
             dev_type = DEVICE_LOOKUP.get(device_id[:3], device_id[1:3])
 
-        if int(dev_type) > 0x3F or int(device_id[-6:]) > 0x3FFFF:
+        if not 0 <= int(dev_type) <= 0x3F or not 0 <= int(device_id[-6:]) <= 0x3FFFF:
             raise ValueError(f"Invalid value: {device_id}, exceeds 24 bits")
         return f"{(int(dev_type) << 18) + int(device_id[-6:]):0>6X}"  # no preceding 0x
 
@@ -151,7 +151,7 @@ def dev_id_to_hex_id(device_id: DeviceIdT) -> str:
     else:  # len(device_id) == 10, e.g. 'CTL:123456', or ' 63:262142'
         raise ValueError(f"Invalid value: {device_id}, is not 9-10 characters long")
 
-    if int(dev_type) > 0x3F or int(device_id[-6:]) > 0x3FFFF:
+    if not 0 <= int(dev_type) <= 0x3F or not 0 <= int(device_id[-6:]) <= 0x3FFFF:
         raise ValueError(f"Invalid value: {device_id}, exceeds 24 bits")
     return f"{(int(dev_type) << 18) + int(device_id[-6:]):0>6X}"
 
